@@ -25,3 +25,7 @@ func (p *PubSub) AddSimTopic(topic string) {
 	ctx, cancel := context.WithCancel(p.ctx)
 	p.setTopic(topic, &topicinfo{ctx: ctx, cancel: cancel, topic: topic})
 }
+
+// SimPublish, when set, receives what Publish would hand to gossipsub (the bytes
+// on the wire) and decides the result of the call.
+var SimPublish func(topic string, msg []byte) error
